@@ -192,3 +192,56 @@ pub fn is_syn(frame: &[u8]) -> bool {
         _ => false,
     }
 }
+
+/// Depth-3 variant (thorough tiers): all ordered triples (a1, a2, b); b's reply compared with a
+/// fresh process.  Hidden state that needs two earlier frames to arm.
+pub fn triple_histories(rep: &mut Report, cfg: &Cfg, stage: &str, frames: &[PFrame]) {
+    let t0 = std::time::Instant::now();
+    let mut alone: Vec<String> = Vec::with_capacity(frames.len());
+    for f in frames {
+        match Driver::spawn(cfg).and_then(|mut d| d.exec(&[Cmd::Frame(f.frame.clone())]).map_err(|e| format!("{:?}", e))) {
+            Ok(o) => alone.push(canon_reply(o[0].reply.as_deref())),
+            Err(e) => {
+                rep.sink.machinery_errors.push(format!("{}: reference run of '{}': {}", stage, f.name, e));
+                return;
+            }
+        }
+    }
+    let flows: Vec<Option<(Ip, Ip, u16, u16)>> = frames.iter().map(|f| tcp_data_flow(&f.frame)).collect();
+    let n = frames.len() as u64;
+    // differential oracle only: the reference model is not asked to follow three-frame mixtures of
+    // data segments of one flow whose acceptance it left open
+    let opts = RunOpts::new(stage).stateful().chunk(64).no_monitor();
+    let cfgc = cfg.clone();
+    let st = stage.to_string();
+    engine::run(
+        cfg,
+        n * n * n,
+        &opts,
+        |i| vec![Cmd::Frame(frames[(i / (n * n)) as usize].frame.clone()), Cmd::Frame(frames[((i / n) % n) as usize].frame.clone()), Cmd::Frame(frames[(i % n) as usize].frame.clone())],
+        |it: &Item, sk: &mut Sink| {
+            let (a1, a2, b) = ((it.idx / (n * n)) as usize, ((it.idx / n) % n) as usize, (it.idx % n) as usize);
+            if flows[b].is_some() && (flows[a1] == flows[b] || flows[a2] == flows[b]) {
+                return;
+            }
+            let o = &it.outs[3];
+            if o.panicked {
+                return;
+            }
+            let got = canon_reply(o.reply.as_deref());
+            if got != alone[b] {
+                sk.violation(Violation {
+                    prop: "C08".into(),
+                    key: format!("hidden-state:{}+{}=>{}", frames[a1].name, frames[a2].name, frames[b].name),
+                    what: format!("frame '{}' is answered differently after frames '{}', '{}' than in a fresh process: {} vs {}", frames[b].name, frames[a1].name, frames[a2].name, &got[..got.len().min(100)], &alone[b][..alone[b].len().min(100)]),
+                    cfg: cfgc.clone(),
+                    cmds: it.cmds.to_vec(),
+                    idx: it.idx,
+                    stage: st.clone(),
+                });
+            }
+        },
+        &mut rep.sink,
+    );
+    rep.stage(stage, &format!("all ordered triples of {} frames: the third frame's reply == its reply in a fresh process", frames.len()), n * n * n, t0);
+}
